@@ -369,3 +369,32 @@ def _merge_same(c0, v0, c, v):
     if isinstance(v, VStr) and v.lit is None and v0.lit is None:
         return VStr(ITE(c, v.arr, v0.arr), ITE(c, v.off, v0.off), ITE(c, v.ln, v0.ln))
     return None
+
+
+def _pattern_ok(t):
+    "may this term serve as a trigger?  (no boolean / ite structure, which z3 rejects)"
+    todo = [t]
+    n = 0
+    while todo:
+        x = todo.pop()
+        n += 1
+        if n > 400:
+            return False
+        if not z3.is_app(x):
+            continue
+        k = x.decl().kind()
+        if k in (z3.Z3_OP_ITE, z3.Z3_OP_AND, z3.Z3_OP_OR, z3.Z3_OP_NOT, z3.Z3_OP_IMPLIES, z3.Z3_OP_EQ,
+                 z3.Z3_OP_LE, z3.Z3_OP_GE, z3.Z3_OP_LT, z3.Z3_OP_GT, z3.Z3_OP_DISTINCT, z3.Z3_OP_IFF):
+            return False
+        todo.extend(x.children())
+    return True
+
+
+def forall_trig(qs, body, trig):
+    "ForAll with an explicit trigger when the trigger is admissible, else with z3's own choice"
+    if _pattern_ok(trig):
+        try:
+            return z3.ForAll(qs, body, patterns=[trig])
+        except z3.Z3Exception:
+            pass
+    return z3.ForAll(qs, body)
